@@ -393,8 +393,8 @@ func (gn *GlobalNode) set(key string, change string) error {
 }
 
 func (gn *GlobalNode) update(changes config.StringMap) error {
-	for key, value := range changes.Fields {
-		if err := gn.set(key, value); err != nil {
+	for _, key := range config.SortedKeys(changes.Fields) {
+		if err := gn.set(key, changes.Fields[key]); err != nil {
 			return err
 		}
 	}
